@@ -83,7 +83,9 @@ def parseCfg (ts : List String) : Option (Bool × Cfg) :=
     let cfg ← match arg.toList with
       | ['-'] => some base
       | 'p' :: ':' :: r => (hexToU64 (String.ofList r)).map (fun b => { base with pct := b })
-      | 'n' :: ':' :: r => (String.ofList r).toInt?.map (fun n => { base with n := n })
+      | 'n' :: ':' :: r =>
+        -- n:<n>[/<name>...]: top/bottom's extra fieldsAndTags names only fill `Aux`, which EmitBatch never reads
+        (((String.ofList r).splitOn "/").headD "").toInt?.map (fun n => { base with n := n })
       | 'u' :: ':' :: r => (String.ofList r).toInt?.map (fun n => { base with n := n })
       | _ => none
     pure (stream, cfg)
@@ -207,6 +209,7 @@ def coverage (cfg : Cfg) (ms : List Msg) : Cov := Id.run do
 
 def judge (_id : String) (lines : Array String) : Verdict := Id.run do
   let mut cfg? : Option (Bool × Cfg) := none
+  let mut extraArgs := false
   let mut msgs : Array Msg := #[]
   let mut obs? : Option (List String) := none
   for l in lines do
@@ -214,7 +217,9 @@ def judge (_id : String) (lines : Array String) : Verdict := Id.run do
     match opT with
     | "cfg" :: _ =>
       match parseCfg opT with
-      | some c => cfg? := some c
+      | some c =>
+        cfg? := some c
+        if (opT.getLastD "").startsWith "n:" && ((opT.getLastD "").splitOn "/").length > 1 then extraArgs := true
       | none => return .badop l
     | "b" :: _ | "p" :: _ =>
       match parseMsg opT with
@@ -240,7 +245,8 @@ def judge (_id : String) (lines : Array String) : Verdict := Id.run do
     return .specfail "aggregate-equals-definition" s!"spec {specOut} observed {observed}"
   -- 2. the tie
   if observed != modelOut then return .mismatch s!"model {modelOut} observed {observed}"
-  return .ok (cov.emitting ≥ 2 && cov.multi) cov.br.reverse
+  let br := if extraArgs then cov.br.reverse ++ ["top-extra-names"] else cov.br.reverse
+  return .ok (cov.emitting ≥ 2 && cov.multi) br
 
 end Kap.C11.Drv
 
